@@ -216,6 +216,35 @@ def vec_fate(prog, f, collect_call):
 AUTO_OK = re.compile(r"^(collect:unordered|extend:unordered|fold:insensitive:\w+|loop:pure|loop:set-insert|collect:seq:sorted|collect:seq:set-like)(\|(collect:unordered|extend:unordered|fold:insensitive:\w+|loop:pure|loop:set-insert|collect:seq:sorted|collect:seq:set-like))*$")
 
 
+def sig_class(sig):
+    """coarse class of a sink signature: the reviewed verdicts are tied to the class, so that a behaviour-preserving rewrite
+    (for-loop with `?`  <->  try_for_each, find_map <-> loop with early return) keeps its verdict"""
+    out = set()
+    for part in sig.split("|"):
+        if part.startswith("loop:"):
+            body = part[5:]
+            if "seq-write" in body:
+                out.add("sequence")
+            elif "calls-mut" in body:
+                out.add("stateful")
+            elif "early-exit" in body:
+                out.add("first-hit")
+            else:
+                out.add("set")
+        elif part.startswith("terminal:"):
+            n = part[9:]
+            out.add("first-hit" if n in ("find", "find_map", "position", "try_for_each", "try_fold") else "stateful")
+        elif part.startswith("collect:seq:ordered-use") or part == "extend:seq":
+            out.add("sequence")
+        elif part.startswith(("returned-iterator", "escapes:", "next-once")):
+            out.add("escapes")
+        elif part.startswith("unclassified") or part.startswith("collect:?"):
+            out.add("unclassified")
+        else:
+            out.add("set")
+    return "+".join(sorted(out))
+
+
 def container_desc(prog, f, c):
     roots = ultimate_roots(prog, f, c.args[0], TRANSPARENT | {"deref"})
     ds = []
@@ -267,8 +296,8 @@ def run(ctx):
             ctx.ob("R1", s["key"], False, "iteration over a hashed container reaches an order-sensitive or unclassified sink (%s; %s) and has no reviewed verdict: the result may depend on the hash seed" % (s["sig"], "; ".join(s["detail"])[:200]), where=where, facts={"sig": s["sig"]})
             continue
         used.add(s["key"])
-        if row["sig"] != s["sig"]:
-            ctx.ob("R1", s["key"], False, "sink signature changed since review: reviewed `%s`, now `%s` — the verdict %s no longer applies" % (row["sig"], s["sig"], row["verdict"]), where=where)
+        if sig_class(row["sig"]) != sig_class(s["sig"]):
+            ctx.ob("R1", s["key"], False, "sink class changed since review: reviewed `%s` (%s), now `%s` (%s) — the verdict %s no longer applies" % (row["sig"], sig_class(row["sig"]), s["sig"], sig_class(s["sig"]), row["verdict"]), where=where)
             continue
         if row["verdict"] == "FINDING":
             ctx.ob("R1", s["key"], False, "FINDING %s: %s" % (row.get("finding", ""), row["why"]), where=where)
